@@ -1,6 +1,7 @@
 """Exception zoo runner for C04/C05: sequences of sandbox executions in one report, observing process-global state
 before/after each.  stdin {"cases":[{"files":{name:code}, "steps":[{"entry":..., ...}]}]}"""
 import json
+import os
 import sys
 import time
 
@@ -22,6 +23,8 @@ def main():
     res = []
     real_stdout, real_sleep = sys.stdout, time.sleep
     for case in data['cases']:
+        if os.path.exists('/var/tmp/verif_c04_created_by_student.txt'):
+            os.remove('/var/tmp/verif_c04_created_by_student.txt')
         sub = Submission(files=dict(case['files']), main_file='answer.py')
         contextualize_report(sub)
         R = MAIN_REPORT
